@@ -27,6 +27,9 @@ pub struct C12Case {
     pub strict: bool,
     pub script: Vec<Op>,
     pub pair_seed: u64,
+    /// bit i set: op i is NOT retried after an error (the script just goes on)
+    #[serde(default)]
+    pub no_retry_mask: u32,
 }
 
 fn read_op_strategy() -> BoxedStrategy<Op> {
@@ -66,8 +69,9 @@ fn strategy(tier: Tier) -> BoxedStrategy<C12Case> {
         any::<bool>(),
         vec(read_op_strategy(), 5..=nops),
         any::<u64>(),
+        prop_oneof![2 => Just(0u32), 1 => Just(u32::MAX), 2 => any::<u32>()],
     )
-        .prop_map(|(version, pool, tree, choices, big_len, max_buf, strict, script, pair_seed)| C12Case { version, pool, tree, choices, big_len, max_buf, strict, script, pair_seed })
+        .prop_map(|(version, pool, tree, choices, big_len, max_buf, strict, script, pair_seed, no_retry_mask)| C12Case { version, pool, tree, choices, big_len, max_buf, strict, script, pair_seed, no_retry_mask })
         .boxed()
 }
 
@@ -88,7 +92,7 @@ fn report(c: &C12Case) -> CaseReport {
     // fault-free run: counts the underlying read+seek calls
     let ctl = new_ctl(FaultDomain::ReadSide);
     let mut trace = Vec::new();
-    let base = match run_read_script(&image, &helper, c.max_buf, c.strict, &c.script, &ctl, &mut trace) {
+    let base = match run_read_script(&image, &helper, c.max_buf, c.strict, &c.script, &ctl, &mut trace, c.no_retry_mask) {
         Ok(s) => s,
         Err(f) => {
             rep.fail = Some(Fail::new(f.key.replace("read_fault|", "no_fault|"), format!("fault-free run: {}", f.detail)));
@@ -108,7 +112,7 @@ fn report(c: &C12Case) -> CaseReport {
         }
         let mut trace = vec![format!("faults at read-side call(s) {:?} of {} ({:?})", faults, n, KINDS[kind_idx % KINDS.len()])];
         rep.evaluations += 1;
-        match run_read_script(&image, &helper, c.max_buf, c.strict, &c.script, &ctl, &mut trace) {
+        match run_read_script(&image, &helper, c.max_buf, c.strict, &c.script, &ctl, &mut trace, c.no_retry_mask) {
             Ok(s) => {
                 if s.fault_in_stream_read && s.err_then_bytes_on_same_handle {
                     rep.nontrivial_items.push(case_hash ^ faults.iter().fold(0u64, |a, f| a.wrapping_mul(1_000_003).wrapping_add(*f + 1)));
